@@ -13,6 +13,7 @@ import (
 	"github.com/ethereum/go-ethereum/accounts/abi"
 	"github.com/ethereum/go-ethereum/common"
 	"github.com/ethereum/go-ethereum/common/hexutil"
+	"github.com/ethereum/go-ethereum/core/vm"
 	"github.com/ethereum/go-ethereum/crypto"
 
 	cpcabi "github.com/EscanBE/evermint/v12/x/cpc/abi"
@@ -297,6 +298,21 @@ func (w *world) probeRound(why string, only *common.Address) {
 		// query
 		pc.Obs["query"] = w.ethCall(c.QueryCtx(), w.prober.Addr, to, pc.Data)
 		ops = append(ops, &op{Kind: "probe", Signer: w.prober, SignerClass: "prober", ArgClass: pc.Sel, Desc: fmt.Sprintf("eth call %s.%s()", to.Hex(), pc.Sel), Bytes: bz, probe: pc})
+		// the same call from the init code of a creation (only where an answer with data is expected: an empty answer
+		// cannot be told from "no code deployed")
+		if only == nil && pc.Exp.Class == "data" && len(pc.Exp.Data) < 20000 {
+			init := ctorProbe(to, pc.Data)
+			pc.Obs["query-create"] = w.ethCreateCall(c.QueryCtx(), w.prober.Addr, init)
+			n2 := w.seqs.Next(w.prober.Addr)
+			bz2, _ := c.EthTx(w.prober, vh.LegacyTx(n2, nil, nil, uint64(400_000+260*len(pc.Exp.Data)), price, init)) // code deposit: 200 gas per byte of the answer
+			// keep the check state's nonce of the prober in step (the next probe's simulate / check run on it)
+			func() {
+				defer func() { _ = recover() }()
+				_, _ = c.App.CheckTx(&abci.RequestCheckTx{Tx: bz2, Type: abci.CheckTxType_New})
+			}()
+			ops = append(ops, &op{Kind: "probe-create", Signer: w.prober, SignerClass: "prober", ArgClass: pc.Sel, Desc: fmt.Sprintf("create whose init code calls %s.%s()", to.Hex(), pc.Sel), Bytes: bz2, probe: pc,
+				created: crypto.CreateAddress(w.prober.Addr, n2)})
+		}
 	}
 	ob := w.runBlock(ops)
 	if ob.Err != nil {
@@ -305,6 +321,17 @@ func (w *world) probeRound(why string, only *common.Address) {
 	for i, o := range ops {
 		res := ob.Res.TxResults[i]
 		er := vh.EthResponse(res)
+		if o.Kind == "probe-create" {
+			switch {
+			case er == nil:
+				o.probe.Obs["deliver-create"] = observation{Class: "failed", Err: fmt.Sprintf("code %d: %s", res.Code, clip(res.Log, 300))}
+			case er.VmError != "":
+				o.probe.Obs["deliver-create"] = observe(nil, er.VmError, nil)
+			default: // the deployed runtime code IS the precompile's answer
+				o.probe.Obs["deliver-create"] = observe(c.App.EvmKeeper.GetCode(c.QueryCtx(), c.App.EvmKeeper.GetCodeHash(c.QueryCtx(), o.created.Bytes())), "", nil)
+			}
+			continue
+		}
 		if er == nil {
 			o.probe.Obs["deliver"] = observation{Class: "failed", Err: fmt.Sprintf("code %d: %s", res.Code, clip(res.Log, 300))}
 		} else {
@@ -335,7 +362,32 @@ func (w *world) ethCall(ctx sdk.Context, from, to common.Address, data []byte) (
 
 // "query-historical" = EthCall on the state of an old height, issued BEFORE the other modes of the same round: the
 // answer must follow the registry of THAT height, and serving it must not change what the later modes see
-var modes = []string{"query-historical", "simulate", "check", "query", "deliver"}
+// "query-create" / "deliver-create" = the same call made by the INIT CODE of a contract creation (STATICCALL to the target,
+// the answer returned as runtime code): precompiles must be wired into the EVM of creation messages too
+func (w *world) ethCreateCall(ctx sdk.Context, from common.Address, init []byte) (o observation) {
+	defer func() {
+		if p := recover(); p != nil {
+			o = observation{Class: "failed", Err: "panic: " + clip(fmt.Sprint(p), 300)}
+		}
+	}()
+	d := hexutil.Bytes(init)
+	args, _ := json.Marshal(evmtypes.TransactionArgs{From: &from, Data: &d})
+	res, err := w.c.App.EvmKeeper.EthCall(ctx, &evmtypes.EthCallRequest{Args: args, GasCap: 8_000_000})
+	if err != nil {
+		return observe(nil, "", err)
+	}
+	return observe(res.Ret, res.VmError, nil)
+}
+
+var modes = []string{"query-historical", "simulate", "check", "query", "deliver", "query-create", "deliver-create"}
+
+// ctorProbe is init code that STATICCALLs target with data and returns the callee's return data as the runtime code.
+func ctorProbe(target common.Address, data []byte) []byte {
+	a := vh.NewAsm().CallWithData(vh.STATICCALL, target, nil, 0, data, 0).Op(vm.POP)
+	a.Op(vm.RETURNDATASIZE).PushU(0).PushU(0).Op(vm.RETURNDATACOPY)
+	a.Op(vm.RETURNDATASIZE).PushU(0).Op(vm.RETURN)
+	return a.Bytes()
+}
 
 // judge compares the four observations of one call with the expectation.
 func (w *world) judge(pc *probeCall, s *scan, why string) {
